@@ -58,6 +58,9 @@ def run(ctx):
     rule_bld_charstr(ctx, F)
     rule_bld_sub(ctx, F)
     rule_bld_atomic(ctx, F)
+    rule_bld_onestep(ctx, F)
+    rule_endl_consumers(ctx, F)
+    rule_relroot(ctx, F)
     rule_cut(ctx, F)
     rule_restore(ctx, F)
     rule_cap(ctx, F)
@@ -385,6 +388,66 @@ def rule_bld_atomic(ctx, F):
         ctx.ob(R, b, "append_name writes each label with one append", not two_step,
                "NameBuilder::append_name writes a label through Label::compose, i.e. the length octet and the content in two "
                "appends: a buffer that takes the first and not the second is left with a label cut short", b.where(two_step[0]) if two_step else b.where())
+
+
+def rule_bld_onestep(ctx, F):
+    """(C03.bld) The helper that writes "length octet + content" of a new label does it with exactly one append to the
+    underlying buffer on every path: two appends can be separated by a ShortBuf."""
+    R = "C03.bld"
+    bs = F.find_bodies("^" + re.escape(NB + "_append_prefixed") + r"(::<.*>)?$")
+    if not ctx.anchor(R, "NameBuilder::_append_prefixed", len(bs) == 1):
+        return
+    b = bs[0]
+    apps = [bb for bb, tt in b.calls() if re.search(r"NameBuilder::<Builder>::_append_slice$|OctetsBuilder::append_slice$", tt["fn"] or "")]
+    chained = [(x, y) for x in apps for y in apps if x != y and y in b.reach_from(x)]
+    ctx.ob(R, b, "_append_prefixed: length octet and content go into the buffer with one append", len(apps) >= 1 and not chained,
+           "NameBuilder::_append_prefixed appends %d times on one path: on a bounded buffer the first append can succeed and the "
+           "second fail, which leaves a stray length octet (a root label in the middle, or a label cut short) in a builder that "
+           "finish() / into_name() then turn into a name" % (len(apps)), b.where(apps[0]) if apps else b.where())
+
+
+def rule_endl_consumers(ctx, F):
+    """(C03.endl) Whoever takes the builder by value to make a name out of it -- finish, into_name, append_origin -- ends
+    the label under construction first: the call to end_label dominates every normal return."""
+    R = "C03.endl"
+    for name in ("finish", "into_name", "append_origin"):
+        bs = F.find_bodies("^" + re.escape(NB + name) + r"(::<.*>)?$")
+        if not ctx.anchor(R, "NameBuilder::%s" % name, len(bs) == 1):
+            continue
+        b = bs[0]
+        ends = [bb for bb, t in b.calls_matching(r"NameBuilder::<Builder>::end_label$")]
+        rets = [i for i in b.reachable_blocks() if b.blocks[i]["t"]["k"] == "ret" and not b.blocks[i].get("c")]
+        ok = bool(ends) and all(any(b.dominates(e, r) for e in ends) for r in rets)
+        ctx.ob(R, b, "%s ends the label under construction" % name, ok,
+               "NameBuilder::%s turns the builder into a name without calling end_label() first: the length octet of a label "
+               "still open (built with push / append_slice) stays 0 and the name has a root label in the middle" % name)
+
+
+def rule_relroot(ctx, F):
+    """(C03.bounds) RelativeName::check_slice refuses a root label wherever it stands: once a label was found to be the
+    root label the walk does not go on (no way from the `is_root() == true` edge back into the loop)."""
+    R = "C03.bounds"
+    b = F.one_body(r"^base::name::relative::RelativeName::<\[u8\]>::check_slice$")
+    if not ctx.anchor(R, "RelativeName::check_slice", b):
+        return
+    roots = [bb for bb, t in b.calls_matching(r"Label::is_root$")]
+    if not ctx.anchor(R, "is_root test in RelativeName::check_slice", len(roots) >= 1, b.where()):
+        return
+    bf = BranchFacts(b, F)
+    for rb in roots:
+        ok = None
+        for sw in b.reachable_blocks():
+            if b.blocks[sw]["t"]["k"] != "switch":
+                continue
+            for lab, (tm, v) in bf.edge_facts(sw).items():
+                d = deep_strip(tm)
+                if d[0] == "call" and len(d) > 5 and d[5] == rb and v is True:
+                    tgt = b.edge_target(sw, lab)
+                    ok = rb not in b.reach_from(tgt)
+        ctx.ob(R, b, "a root label anywhere in a relative name is refused", ok is True,
+               "RelativeName::check_slice goes on with the next label after it has seen a root label (only a root label in some "
+               "particular position is refused): `www.<empty>.com` is accepted as a RelativeName, and into_name() gives a name "
+               "with two root labels", b.where(rb))
 
 
 def rule_bld_charstr(ctx, F):
